@@ -75,6 +75,8 @@ Definition o_cast_of_bool (t : ity) (b : bool) : Z := if b then 1 else 0.
 (* int -> float of an integer the format represents (|x| <= 2^24 resp. 2^53), and float constants with an
    integral value: the value itself *)
 Definition o_cast_float (x : Z) : Z := x.
+(* Identity *)
+Definition o_identity (x : Z) : Z := x.
 
 (* ---------------------------------------------------------------- rounding on exact fractions *)
 Definition frac := (Z * Z)%type.             (* n / d with d > 0 *)
